@@ -12,41 +12,67 @@ from checks import dsgen
 
 TRUST = ("Lean 4.33 kernel; axioms at most propext/Classical.choice/Quot.sound (audited per run); "
          "optimalBatchSizes/batchPartitioning are machine-translated from the C++ on every run (clang-14 JSON AST -> Lean, "
-         "translate/batch_arith.py is trusted, and cross-checked by the correspondence); the container operations are a "
-         "hand-written model (Model/Dataset.lean) tied to the C++ by the differential correspondence only (generator-bounded); ")
+         "translate/batch_arith.py is trusted, and cross-checked by the correspondence); the container operations are hand-written "
+         "models (Model/Dataset.lean: values; Model/DatasetShared.lean: the shared batch pointers) tied to the C++ by the differential "
+         "correspondence only (generator-bounded); ")
 MANIFEST = dict(
   text=("Theorems (Props/C03.lean, re-proved on every run against the regenerated batch arithmetic), for all element types, sizes, batch sizes, "
         "partitions and operation histories: (A) the machine-translated optimalBatchSizes is, for n>0 and m>0, inside defined arithmetic and returns "
-        "ceil(n/m) batch sizes that sum to n, lie in [1,m] and differ by at most 1; for n=0 it is either undefined (division by zero, finding F1) "
-        "or empty (repaired source) -- which one holds is evaluated and reported on every run; the copy of the arithmetic in createDataFromRange "
-        "agrees with it. (B) createDataFromRange, repartition (incl. its element-by-element copy loop, proved equal to the abstract cut), splitBatch, "
-        "splice, append, push_back, indexedSubset (+ complement: a partition of the elements), transform and reorderElements map the flat element "
+        "ceil(n/m) batch sizes that sum to n, lie in [1,m] and differ by at most 1; for n=0 it is empty (repaired source; evaluated and reported on "
+        "every run); the copy of the arithmetic in createDataFromRange agrees with it. (B) createDataFromRange, repartition (incl. its "
+        "element-by-element copy loop, proved equal to the abstract cut; defined only for sizes summing to n), splitBatch, "
+        "splice, append, push_back, indexedSubset (+ complement for index lists of ANY form -- unsorted, duplicates, empty: subset = listed batches "
+        "in listed order, complement = the unlisted batches once each in ascending order; for duplicate-free lists a partition), transform (also to another "
+        "element type) and reorderElements map the flat element "
         "sequence exactly as documented, keep shape and partitioning as documented; reorderElements with a permutation (shuffle) preserves the "
         "multiset. (C) for every partition into non-empty batches the DataElementIterator state machine makes elements(), element(i), reverse "
         "iteration and batches() yield the same sequence (Data and LabeledData); ++/-- are mutually inverse across batch borders; it += n lands on the "
         "canonical (batch, offset) of p+n for every signed n; batch sizes sum to numberOfElements. (D) LabeledData: createLabeledDataFromRange, "
-        "repartition, splitBatch, splice, splitAtElement (first k pairs stay), append, push_back, indexedSubset, reorderElements, transformLabels/Inputs keep inputs "
+        "repartition, splitBatch, splice, splitAtElement (first k pairs stay; at 0 everything moves, at n nothing), append, push_back, indexedSubset, "
+        "the two-result indexedSubset on inputs and labels, reorderElements, transformLabels/Inputs keep inputs "
         "and labels in the same partitioning and never separate an input from its label. (E) every finite history of repartition / splitBatch / "
         "reorderElements-by-permutation steps on one dataset, and of these plus splitAtElement / append / swap moving elements between two datasets, "
         "preserves well-formedness, non-empty batches and the multiset of (input,label) pairs; in every reachable state the access paths agree. "
         "(F) repartitionByClass, whenever it succeeds (any label multiset incl. absent classes), yields a permutation of the pairs gathered class by "
         "class with ascending labels; binarySubProblem returns exactly the first run of batches of the smaller class followed by the next run of the "
-        "bigger class (on class-sorted batches: all batches of the two classes) relabelled [l = oneClass], and throws iff a run is missing; after "
-        "repartitionByClass (repaired source) every batch is non-empty, holds one class, and batch classes ascend, so binarySubProblem of it is exactly the "
+        "bigger class (on class-sorted batches: all batches of the two classes) relabelled [l = oneClass], and throws iff a run is missing; it equals "
+        "indexedSubset by the scanned batch index set + relabelling; after "
+        "repartitionByClass every batch is non-empty, holds one class, and batch classes ascend, so binarySubProblem of it is exactly the "
         "batches of the two classes; "
-        "oneVersusRest relabels in place; DataView lists the dataset in order, subsets compose, toDataset(view) holds exactly the view's elements. "
-        "The model is tied to the real Data/LabeledData/DataView code by an exact line-by-line correspondence over random operation histories (24 "
-        "operation kinds incl. shuffle with the observed permutation, binarySubProblem, oneVersusRest, element-/batch-wise transform, signed iterator "
-        "jumps) on unsigned, RealVector, CompressedRealVector and user-struct elements and on WeightedLabeledData under ASan/UBSan, plus an independent in-harness oracle that keeps "
-        "a flat std::vector beside every dataset."),
-  note=TRUST + "covered by the correspondence and the oracle only (modelled, no theorem): the two-result indexedSubset on LabeledData parts (`subc`), "
-       "Data(size, element, batchSize) batch layout beyond its sum, shapes after transform; sharing of batches between datasets (shared_ptr) and the storage "
-       "layout of sparse batches are not modelled; WeightedLabeledData is covered by the correspondence only (same model, weights checked by the oracle; "
-       "ops new/repartition/splitBatch/splitAtElement/splice/append/indexedSubset/shuffle). Open findings F1, F10, F13 (findings_proposed/C03.md; F9 was repaired upstream meanwhile) make the check print "
-       "VIOLATION on the unrepaired tree.",
-  technique="Lean 4 proofs (induction over partitions and operation histories) on a model whose batch arithmetic is regenerated from the C++ "
-            "on every run + differential correspondence with the real containers (ASan/UBSan)",
-  design="§6 C03")
+        "oneVersusRest relabels in place; DataView lists the dataset in order and numbers it 0..n-1 (index(i)), subsets compose (elements and indices), toDataset(view, m) holds exactly the view's elements, "
+        "keeps the element shapes (repaired source, F-C03-16) in batches of m (all full but the last; Data(n, x, m) alike, a single EMPTY batch for n = 0). "
+        "(G) SHARED BATCHES: Model/DatasetShared.lean makes the shared_ptr batch lists explicit (heap of batches, containers = address lists, use-counts over "
+        "all live holders incl. the dataset copies inside views). Every structural operation (copy, swap, makeIndependent, splitBatch, splice, repartition, "
+        "splitAtElement, append, push_back, indexedSubset, reorderElements/shuffle, fresh datasets, transformInputs/Labels, DataView, view subsets) only "
+        "extends the heap, keeps addresses valid and acts on the VALUES of the slots exactly like the value-level operation (simulation), for every finite "
+        "history (list induction): sharing is not observable through structural operations and no dataset other than the named targets changes "
+        "(isolation); splitBatch/splice/repartition succeed only on independent containers and throw otherwise; the only operations that overwrite an "
+        "existing batch are writes through element proxies, which leave every container not holding the written batch unchanged, and after "
+        "makeIndependent() change NO other dataset (copy-on-write discipline; witness that without it the sibling changes); repartitionByClass at the "
+        "pointer level (repartition + reorderElements) computes the value of section F and changes no other dataset. "
+        "(H) WeightedLabeledData (data + weights, every operation applied to both): repartition, splitBatch, shuffle keep inputs, labels and weights in "
+        "one partitioning and, over every finite history, the multiset of ((input,label),weight) triples -- a weight follows its element; append "
+        "concatenates and splice splits the triple sequence, indexedSubset keeps the three partitionings equal. "
+        "The models are tied to the real Data/UnlabeledData/LabeledData/WeightedLabeledData/DataView code by an exact line-by-line correspondence over "
+        "random operation histories (40 operation kinds: the 24 of before plus makeIndependent, the raw guarded operations without makeIndependent "
+        "(exception expected exactly when the model's use-counts say shared), swap, in-place writes through dataset and view element proxies, "
+        "UnlabeledData::shuffle, randomSubset with the observed draw, Data(n, x, m) incl. n = 0, the empty range, transform through another element "
+        "type and batch-wise over sparse batches; after every op the independence flags of every container are compared with the model's use-counts) "
+        "on unsigned, RealVector, CompressedRealVector and user-struct elements and on WeightedLabeledData under ASan/UBSan, plus an independent "
+        "in-harness oracle that keeps a flat std::vector beside every dataset, re-reads every state through the const and non-const element/batch "
+        "proxies and repeats every iterator jump on Data<I>, Data<label> (const and non-const) and LabeledData iterators with +=, -=, +, ++/--."),
+  note=TRUST + "covered by the correspondence and the oracle only (modelled, no theorem): Data(n, x, m) being filled through the element iterator, "
+       "randomSubset drawing distinct positions (observed draw checked), the value a write through a proxy leaves in the writer itself when it holds "
+       "a batch twice, bootstrap (oracle only: weights count k draws), weightedInputs(), the weights container of WeightedLabeledData sharing "
+       "exactly like the label container (oracle), binarySubProblem/repartitionByClass at the pointer level (shared inputs, fresh labels; value "
+       "level proved); the storage layout of sparse batches is not modelled. Datasets with an EMPTY batch (Data(0, x, m), appended anywhere) are "
+       "outside the iterator theorems (witness theorem); harness and model print `paths=na` for them and apply batch-level operations only. "
+       "Open findings F-C03-14..19 (findings_proposed/C03.md): each is probed on its own on every run and reported against known_findings.json; "
+       "while a probe fails the random stream keeps away from its trigger (evidence `stream_avoids_open_findings`) and, for F-C03-16, runs the model "
+       "with the unrepaired toDataset shape behaviour (`legacy-v2d-shape`).",
+  technique="Lean 4 proofs (induction over partitions and operation histories; simulation of a pointer-sharing model by a value model) on models whose "
+            "batch arithmetic is regenerated from the C++ on every run + differential correspondence with the real containers (ASan/UBSan)",
+  design="§6 C03, §14 C03")
 
 FINISH = dict(level="proof",
               rule="histories of dataset operations generated against the Lean model from one SplitMix64 stream; a case is non-trivial if it "
